@@ -211,9 +211,16 @@ class MPIRun(LaunchMethod):
 
         options += '-np %d' % np
 
-        cmd = '%s %s %s %s %s %s %s %s' % \
-            (self._ccmrun, self._command, mpt_hosts_string, options,
-             self._dplace, self._omplace, hosts_string, exec_path)
+        if self._dplace or self._omplace:
+            # mpirun stops reading options at the first non-option token, so
+            # the host options must precede the dplace/omplace wrappers
+            cmd = '%s %s %s %s %s %s %s %s' % \
+                (self._ccmrun, self._command, mpt_hosts_string, options,
+                 hosts_string, self._dplace, self._omplace, exec_path)
+        else:
+            cmd = '%s %s %s %s %s %s %s %s' % \
+                (self._ccmrun, self._command, mpt_hosts_string, options,
+                 self._dplace, self._omplace, hosts_string, exec_path)
 
         return cmd.strip()
 
